@@ -38,7 +38,7 @@ theorem saveWorld_img (cls : Cls) (env : Env) (dt : DtReq) (fault : Fault) (k : 
   · exact niftiSave_img _ env dt fault _ (rtCode_id .n2pair) hwf henv
   · exact niftiSave_img _ env dt fault _ (rtCode_id .n2single) hwf henv
   · exact mghSave_img _ env dt fault _
-  · exact ciftiSave_img env dt fault _
+  · exact ciftiSave_img env dt fault _ (rtCode_id .n2single) hwf henv
 
 /-- **save_preserves_state**: for every class, state, fault point (none / any k / any byte budget), dtype
     override, alias and external behaviour, the observable image (consumable header fields, dtype code,
@@ -55,8 +55,10 @@ theorem save_preserves_state (cls : Cls) (env : Env) (req : SaveReq) (img : Img)
 def exEnv : Env :=
   { owned := false, exts := [(11, 13)], mat := [], resolve := fun _ => some 4,
     writer := fun _ => ⟨true, some 1000, some 2000, 3, 40⟩ }
+def exAff : M4 := ⟨⟨2, 0, 1, -10⟩, ⟨0, 3, 0, -20⟩, ⟨-1, 0, 4, -30⟩, ⟨0, 0, 0, 1⟩⟩
 def exImg : Img :=
-  { core := { hdr := ⟨0, 64, none, none⟩, alias := some .compat, data := 1, affine := 2, hdrObj := 0 }, fileMap := 0 }
+  { core := { hdr := ⟨0, 64, none, none⟩, alias := some .compat, data := 1, affine := some exAff, hdrObj := 0 },
+    fileMap := 0 }
 def exReq (k : Nat) : SaveReq := { dtype := .none, fileMap := some 7, fault := .call k }
 
 example : exImg.wf .n1single ∧ exEnv.ok .n1single ∧ (save .n1single exEnv (exReq 10) exImg).err = some .os ∧
@@ -232,7 +234,7 @@ example : (run .n1single exImg [.save exEnv (exReq 3), .setDtype 4, .save exEnv 
 /-- ORIGINAL logic: an OSError at a data write (after `set_slope_inter`, before the restore at the end)
     leaves the computed slope, intercept and offset in the header -/
 theorem orig_fault_leaves_slope_orig_counterexample :
-    let img : Img := { core := { hdr := ⟨0, 4, none, none⟩, alias := none, data := 1, affine := 2, hdrObj := 0 }, fileMap := 0 }
+    let img : Img := { core := { hdr := ⟨0, 4, none, none⟩, alias := none, data := 1, affine := some exAff, hdrObj := 0 }, fileMap := 0 }
     let o := saveOrig .n1single exEnv ⟨.none, some 1, .call 10⟩ img
     o.err = some .os ∧ o.img.core.hdr = ⟨384, 4, some 1000, some 2000⟩ ∧ o.img.core ≠ img.core ∧
     -- and the retry then writes UNSCALED data under that slope (scaled flag false in the data chunk)
